@@ -19,6 +19,10 @@ AcctFns == {"ChangeOwnerAddress", "ClaimDeveloperRewards", "SetUserName"}
 IsIssue(ev) == ev.fn = "ESDTTransfer" /\ ev.caller = ESDTSC
 
 ---------------------------------------------------------------------------
+\* A refusal that is about gas only: the harness ran the same call on the same pre-state with ample gas first (undone afterwards) and that
+\* run succeeded (x.used is logged exactly then).  Whether the price behind such a refusal is right is C06 / C16's question.
+GasRefusal(ev) == ev.a = "exec" /\ ~IsOk(ev) /\ "used" \in DOMAIN ev.x
+
 \* C01
 \* Exactness is judged against the PERMISSIVE reference rp (flags cleared, everything payable, every role, ample gas): whether the
 \* call should have been refused for a flag, payability, a role or gas is the business of C04 / C09 / C03 / C06, not of C01.  Likewise a call
@@ -46,7 +50,7 @@ P01_FailKeeps(w, ev, w2, h, r) ==
 \* C02
 P02_Delta(w, ev, w2, h, r, rp) ==
   (Call(ev) /\ ev.fn \in SupplyFns) =>
-     /\ (Pred(r) /\ r.ok) => IsOk(ev)                                   \* a nominal call has the stated effect (it is not refused)
+     /\ (Pred(r) /\ r.ok) => (IsOk(ev) \/ GasRefusal(ev))                 \* a nominal call has the stated effect (it is not refused)
      /\ (IsOk(ev) /\ ev.fn # "ESDTWipe" /\ Pred(rp) /\ rp.ok) => Bal(w2) = Bal(rp.w)   \* an accepted call changes exactly the stated amount
      /\ (IsOk(ev) /\ ev.fn = "ESDTWipe" /\ Pred(r)) => (r.ok /\ Bal(w2) = Bal(r.w))
 P02_Others(w, ev, w2, h, r) ==
@@ -224,9 +228,10 @@ P08_OnlyUriAttr(w, ev, w2, h, r) ==
      (w.acct[a].esdt[k].meta # w2.acct[a].esdt[k].meta \/ w.acct[a].esdt[k].hm # w2.acct[a].esdt[k].hm) =>
         \/ (Call(ev) /\ IsOk(ev) /\ ev.fn \in {"ESDTNFTAddURI", "ESDTNFTUpdateAttributes"} /\ ev.caller = a /\ k = Arg(ev,1).h \o NBHex(Arg(ev,2).n))
         \/ (Call(ev) /\ IsOk(ev) /\ ev.fn \in TokenFns /\ a # ev.caller /\ w2.acct[a].esdt[k].val >= w.acct[a].esdt[k].val)   \* received a copy (also of quantity 0)
-P08_UriAttrExact(w, ev, w2, h, r) ==
-  (Call(ev) /\ IsOk(ev) /\ ev.fn \in {"ESDTNFTAddURI", "ESDTNFTUpdateAttributes"} /\ Pred(r)) =>
-     (r.ok /\ w2.acct = r.w.acct /\ w2.paused = w.paused /\ w2.msgs = w.msgs)
+\* (ra: the reference given ample gas - whether the provided gas sufficed is C06 / C16's question)
+P08_UriAttrExact(w, ev, w2, h, r, ra) ==
+  (Call(ev) /\ IsOk(ev) /\ ev.fn \in {"ESDTNFTAddURI", "ESDTNFTUpdateAttributes"} /\ Pred(ra)) =>
+     (ra.ok /\ w2.acct = ra.w.acct /\ w2.paused = w.paused /\ w2.msgs = w.msgs)
 P08_WrongHash(w, ev, w2, h, r) ==
   \* a credit into a holding with a different hash is rejected
   \A a \in Accts(w) \cap Accts(w2) : \A k \in (DOMAIN w.acct[a].esdt) \cap (DOMAIN w2.acct[a].esdt) :
@@ -253,27 +258,36 @@ P09_Rejected(w, ev, w2, h, r) ==
           /\ (da.ad # "" => ~IsMetaA(da.ad))
 
 \* C16
+\* The per-byte component the statement documents for transfers is "copied bytes of each CROSS-SHARD NFT payload".  What a same-shard NFT or
+\* multi transfer pays on top of cost x tokens is not stated: there only "some whole number of bytes at the data-copy price" is required.
+SameShardCopy(ev) ==
+  /\ ev.fn \in {"ESDTNFTTransfer", "MultiESDTNFTTransfer"} /\ ev.caller = ev.rcpt /\ ev.pl # <<>>
+  /\ LET da == IF ev.fn = "ESDTNFTTransfer" THEN (IF NArgs(ev) >= 4 THEN Arg(ev,4).ad ELSE "") ELSE (IF NArgs(ev) >= 1 THEN Arg(ev,1).ad ELSE "") IN
+     da # "" /\ ShardOfA(da) = ev.sh
+PriceMatches(w, ev, observed, model) ==
+  IF SameShardCopy(ev) THEN LET base == model - Base(w, "DataCopyPerByte") * SumSeq(ev.pl) IN observed >= base /\ (observed - base) % Base(w, "DataCopyPerByte") = 0
+  ELSE observed = model
 P16_Price(w, ev, w2, h, r) ==
   (ev.a = "exec" /\ IsOk(ev) /\ Pred(r) /\ r.ok /\ ev.snd) =>
      LET rf == SumSeq([i \in 1..Len(r.out) |-> IF r.out[i].tx THEN 0 ELSE r.out[i].gas])
          model == ev.gas - r.gr - rf IN
-     IF ev.gascls = "" THEN (ev.gas - ev.gr - ev.fwd) = model
-     ELSE ("consumed" \in DOMAIN ev.x /\ ev.x.consumed = model)
+     IF ev.gascls = "" THEN PriceMatches(w, ev, ev.gas - ev.gr - ev.fwd, model)
+     ELSE ("consumed" \in DOMAIN ev.x /\ PriceMatches(w, ev, ev.x.consumed, model))
 \* the consumption measured by a probe execution with ample gas is the model's price too (also for steps that then failed for lack of gas)
 P16_ProbePrice(w, ev, w2, h, r) ==
   (ev.a = "exec" /\ ev.snd /\ "used" \in DOMAIN ev.x /\ ev.gas < HugeGas) =>
      LET r2 == Exec(w, [ev EXCEPT !.gas = 900000000])
          rf == SumSeq([i \in 1..Len(r2.out) |-> IF r2.out[i].tx THEN 0 ELSE r2.out[i].gas]) IN
-     (Pred(r2) /\ r2.ok) => ev.x.used = 900000000 - r2.gr - rf
+     (Pred(r2) /\ r2.ok) => PriceMatches(w, ev, ev.x.used, 900000000 - r2.gr - rf)
 \* a call accepted although the model's price exceeds the provided gas
 P16_Charged(w, ev, w2, h, r) ==
-  (ev.a = "exec" /\ ev.snd /\ Pred(r) /\ ~r.ok /\ IsOk(ev) /\ ev.gas < HugeGas) =>
+  (ev.a = "exec" /\ ev.snd /\ Pred(r) /\ ~r.ok /\ IsOk(ev) /\ ev.gas < HugeGas /\ ~SameShardCopy(ev)) =>
      LET r2 == Exec(w, [ev EXCEPT !.gas = 900000000]) IN ~(Pred(r2) /\ r2.ok)
 
 \* C10
 Key(tok, n) == tok \o NBHex(n)
 RECURSIVE ParSum(_, _)
-ParSum(items, k) == IF items = <<>> THEN 0 ELSE (IF Key(Head(items).tok, Head(items).nonce) = k THEN Head(items).val ELSE 0) + ParSum(Tail(items), k)
+ParSum(items, k) == IF items = <<>> THEN 0 ELSE PAdd(IF Key(Head(items).tok, Head(items).nonce) = k THEN Head(items).val ELSE 0, ParSum(Tail(items), k))
 ParKeys(items) == {Key(items[i].tok, items[i].nonce) : i \in 1..Len(items)}
 DestOf(ev) ==
   IF ev.fn = "ESDTTransfer" \/ ev.caller # ev.rcpt THEN ev.rcpt
